@@ -164,7 +164,8 @@ def run(ctx, chk):
 
 def strip_dur(v):
     """Duration::from_secs(x as u64) -> x"""
-    while v[0] == 't' and v[1] in ('dur_from_secs', 'dur_from_secs_f64', 'cast', 'conv'):
+    while v[0] == 't' and (v[1] in ('dur_from_secs', 'dur_from_secs_f64', 'cast', 'conv') or
+                           (v[1] == 'dur_new' and psi.is_int_const(v[2][1]) and v[2][1][1] == 0)):   # Duration::new(secs, 0)
         v = v[2][0]
     return v
 
